@@ -33,6 +33,9 @@ structure Sys (V α : Type) where
   nrm : V → α
   /-- `transp.apply(r, x)` with the transposed system matrix (PCGNR only) -/
   At : V → V := A
+  /-- the vector `format(3)` the power method of Chebyshev starts from, and its tolerance `DataType(1e-4)` -/
+  v3 : V := ops.zero
+  chebTol : α := nrm ops.zero
 
 structure Result (V α : Type) where
   status : Status
